@@ -331,3 +331,27 @@ where
         })
         .collect::<Vec<_>>()
 }
+
+/// Decides a model without variables: every row is a comparison of constants, so the
+/// model is feasible only if all of them hold, and its objective value is the offset.
+#[allow(dead_code)]
+pub(crate) fn solve_variable_free(
+    lp: &crate::transformers::LinearModel,
+) -> Result<f64, SolverError> {
+    use crate::math::Comparison;
+    let violated = lp.constraints().iter().any(|constraint| {
+        let rhs = constraint.rhs();
+        !match constraint.constraint_type() {
+            Comparison::LessOrEqual => 0.0 <= rhs,
+            Comparison::GreaterOrEqual => 0.0 >= rhs,
+            Comparison::Equal => 0.0 == rhs,
+            Comparison::Less => 0.0 < rhs,
+            Comparison::Greater => 0.0 > rhs,
+        }
+    });
+    if violated {
+        return Err(SolverError::Infeasible);
+    }
+    // A variable-free model still carries a constant objective (the offset).
+    Ok(lp.objective_offset())
+}
